@@ -10,8 +10,9 @@
 EXTENDS Integers, Sequences
 CONSTANTS new,    \* observations made at this step
           all,    \* observations to compare with (everything seen so far / the whole grid)
-          probe   \* last request that reached the handler's health gate:
-                  \*   [is |-> BOOLEAN, health, acked, data, code]   (is = FALSE: this step is no probe)
+          probes  \* the partitions of the last request that reached the handler's health gate, a set of
+                  \*   [health, acked, data, code]: health = rating of the monitor while the broker handled (decided /
+                  \*   wrote) that partition; acked = produce acknowledged; data = fetch reply carries records
 
 Rank(s) == CASE s = "healthy" -> 0 [] s = "degraded" -> 1 [] s = "unavailable" -> 2 [] OTHER -> 3
 Den(o) == IF o.n = 0 THEN 1 ELSE o.n
@@ -47,5 +48,5 @@ C25_Monotone ==
 \* "retriable error" is read as the broker's two backpressure codes REQUEST_TIMED_OUT(7) / UNKNOWN_SERVER_ERROR(-1)
 \* (docs/architecture.md "S3 Health Backpressure"; pinned by the repository's own tests).
 Backpressure == {7, -1}
-C25_Gate == (probe.is /\ probe.health # "healthy") => (~probe.acked /\ ~probe.data /\ probe.code \in Backpressure)
+C25_Gate == \A p \in probes : p.health # "healthy" => (~p.acked /\ ~p.data /\ p.code \in Backpressure)
 ====
